@@ -230,6 +230,12 @@ def evaluate(prop, cases, obs, scratch, tag="s"):
     return sorted(bad)
 
 
+def _clip(x, limit):
+    """Evidence samples are meant to be read: very large inputs / observations are shown by their head only."""
+    j = canonical(x)
+    return x if len(j) <= limit else {"clipped_to_chars": limit, "total_chars": len(j), "head": j[:limit]}
+
+
 def canonical(x):
     return json.dumps(x, sort_keys=True, separators=(",", ":"))
 
@@ -440,7 +446,7 @@ def run(prop, args, seed, scratch, t0):
             distinct[sha(c)] = 1
     samples = []
     for j in sorted(set([0, len(cases) // 3, len(cases) - 1])) if cases else []:
-        samples.append({"stream": streams[j], "input": cases[j], "implementation": obs[j]})
+        samples.append({"stream": streams[j], "input": _clip(cases[j], 8000), "implementation": _clip(obs[j], 4000)})
     tb = [
         "Coq 8.16.1 kernel incl. the vm_compute virtual machine (used to evaluate the model on the generated cases); native_compute is not used",
         "axioms per theorem as printed by Print Assumptions on this run: " + json.dumps({k: (v or "Closed under the global context") for k, v in assumptions.items()}),
